@@ -3,28 +3,30 @@
 #   - patch.diff applies to a clean checkout and touches hmclab/ only
 #   - demo.py exits 1 with the change, 0 without
 #   - the repository's test suite has the same failing/erroring ids with the change as the baseline list given
-# Writes <worktree>/_seed/verify.json. Baseline ids: /tmp/seedtasks/baseline_fail.txt (made by tools/suite_ids.sh on a clean worktree).
+# Writes <worktree>/$SD/verify.json. Baseline ids: /tmp/seedtasks/baseline_fail.txt (made by tools/suite_ids.sh on a clean worktree).
 set -u
-ID=$1; WT=$2
+ID=$1; WT=$2; SD=${3:-_seed}        # SD: directory with patch.diff and demo.py (relative to the worktree)
+TAG=$ID$(echo "$SD" | tr -c 'A-Za-z0-9\n' '_' | sed 's/^_seed//')
 cd "$WT" || exit 2
 export PYTHONPATH="$WT" OMP_NUM_THREADS=1 MPLBACKEND=Agg
-cp _seed/patch.diff /tmp/seedtasks/$ID.patch
-git diff -- hmclab > /tmp/seedtasks/$ID.tree.diff; git checkout -q -- hmclab
+cp $SD/patch.diff /tmp/seedtasks/$TAG.patch
+git diff -- hmclab > /tmp/seedtasks/$TAG.tree.diff; git checkout -q -- hmclab
 clean=$(git status --porcelain -- hmclab | wc -l)
-/venv/bin/python _seed/demo.py > /tmp/seedtasks/$ID.demo_clean.out 2>&1; rc_clean=$?
-git apply --check /tmp/seedtasks/$ID.patch && git apply /tmp/seedtasks/$ID.patch; rc_apply=$?
+/venv/bin/python $SD/demo.py > /tmp/seedtasks/$TAG.demo_clean.out 2>&1; rc_clean=$?
+git apply --check /tmp/seedtasks/$TAG.patch && git apply /tmp/seedtasks/$TAG.patch; rc_apply=$?
 files=$(git diff --name-only | tr '\n' ' ')
-/venv/bin/python _seed/demo.py > /tmp/seedtasks/$ID.demo_mut.out 2>&1; rc_mut=$?
+/venv/bin/python $SD/demo.py > /tmp/seedtasks/$TAG.demo_mut.out 2>&1; rc_mut=$?
 # (a shell that starts this script in the background leaves SIGINT ignored, which Python inherits: tests/test_break.py relies on KeyboardInterrupt)
-/venv/bin/python -c "import signal, sys, runpy; signal.signal(signal.SIGINT, signal.default_int_handler); sys.argv = ['pytest', '-q', '-p', 'no:cacheprovider', '--timeout=900', '--continue-on-collection-errors', '--junitxml=/tmp/seedtasks/$ID.junit.xml']; runpy.run_module('pytest', run_name='__main__', alter_sys=True)" > /tmp/seedtasks/$ID.pytest.out 2>&1
-/venv/bin/python - "$ID" <<'PY' > /tmp/seedtasks/$ID.fail.txt
+/venv/bin/python -c "import signal, sys, runpy; signal.signal(signal.SIGINT, signal.default_int_handler); sys.argv = ['pytest', '-q', '-p', 'no:cacheprovider', '--timeout=900', '--continue-on-collection-errors', '--junitxml=/tmp/seedtasks/$TAG.junit.xml']; runpy.run_module('pytest', run_name='__main__', alter_sys=True)" > /tmp/seedtasks/$TAG.pytest.out 2>&1
+/venv/bin/python - "$TAG" <<'PY' > /tmp/seedtasks/$TAG.fail.txt
 import sys, xml.etree.ElementTree as ET
 t = ET.parse(f"/tmp/seedtasks/{sys.argv[1]}.junit.xml")
 for tc in t.iter("testcase"):
     if tc.find("failure") is not None or tc.find("error") is not None:
         print(tc.get("classname") + "::" + tc.get("name"))
 PY
-sort -o /tmp/seedtasks/$ID.fail.txt /tmp/seedtasks/$ID.fail.txt
-new=$(comm -13 /tmp/seedtasks/baseline_fail.txt /tmp/seedtasks/$ID.fail.txt | wc -l)
-gone=$(comm -23 /tmp/seedtasks/baseline_fail.txt /tmp/seedtasks/$ID.fail.txt | wc -l)
-echo "{\"id\":\"$ID\",\"clean_tree\":$clean,\"demo_clean_rc\":$rc_clean,\"apply_rc\":$rc_apply,\"files\":\"$files\",\"demo_mut_rc\":$rc_mut,\"new_failing_tests\":$new,\"no_longer_failing\":$gone,\"tail\":\"$(tail -1 /tmp/seedtasks/$ID.pytest.out | tr -d '"')\"}" | tee _seed/verify.json
+sort -o /tmp/seedtasks/$TAG.fail.txt /tmp/seedtasks/$TAG.fail.txt
+new=$(comm -13 /tmp/seedtasks/baseline_fail.txt /tmp/seedtasks/$TAG.fail.txt | wc -l)
+gone=$(comm -23 /tmp/seedtasks/baseline_fail.txt /tmp/seedtasks/$TAG.fail.txt | wc -l)
+git checkout -q -- hmclab   # leave the worktree clean
+echo "{\"id\":\"$TAG\",\"clean_tree\":$clean,\"demo_clean_rc\":$rc_clean,\"apply_rc\":$rc_apply,\"files\":\"$files\",\"demo_mut_rc\":$rc_mut,\"new_failing_tests\":$new,\"no_longer_failing\":$gone,\"tail\":\"$(tail -1 /tmp/seedtasks/$TAG.pytest.out | tr -d '"')\"}" | tee $SD/verify.json
